@@ -18,6 +18,7 @@
 package validator
 
 import (
+	"io"
 	"net/http"
 
 	"fmt"
@@ -152,7 +153,13 @@ func (v *Validator) Handle(ctx *context.Context) string {
 		}
 	}
 	if v.signer != nil {
-		if err := v.signer.Verify(req.Std()); err != nil {
+		// the body of the underlying request has already been consumed by
+		// FetchPayload, let the signer verify the payload that is forwarded.
+		stdr := req.Std()
+		if !req.IsStream() {
+			stdr.Body = io.NopCloser(req.GetPayload())
+		}
+		if err := v.signer.Verify(stdr); err != nil {
 			prepareErrorResponse(http.StatusUnauthorized, "signature validator: ", err)
 			return resultInvalid
 		}
